@@ -32,7 +32,8 @@ def action_code(idx, kind, sets):
              '    let (s, e) = lexer.match_loc();',
              '    let pk = lexer.peek();',
              '    let txt = if lexer.state().with_text { lv::show_text(lexer.match_()) } else { String::from("!") };',
-             '    let d = lexer.state().record(%d, s, e, pk, txt);' % idx,
+             '    let stale = lexer.state().short && lexer.0.clone().backtrack().is_ok();',
+             '    let d = lexer.state().record(%d, s, e, pk, txt, stale);' % idx,
              '    let (reset, tgt, res) = lv::decode(d, %d, %s);' % (n, 'true' if fallible else 'false'),
              '    if reset { lexer.reset_match(); }']
     arms = ['        (None, 0) => lexer.continue_(),']
